@@ -3,6 +3,7 @@ package template
 import (
 	"go/types"
 	"strings"
+	"unicode/utf8"
 )
 
 // Var represents a method variable/parameter.
@@ -171,5 +172,12 @@ func basicTypeVarName(b *types.Basic) string {
 	return "v"
 }
 
-func capitalise(s string) string   { return strings.ToUpper(s[:1]) + s[1:] }
-func deCapitalise(s string) string { return strings.ToLower(s[:1]) + s[1:] }
+func capitalise(s string) string   { n := firstRuneLen(s); return strings.ToUpper(s[:n]) + s[n:] }
+func deCapitalise(s string) string { n := firstRuneLen(s); return strings.ToLower(s[:n]) + s[n:] }
+
+// firstRuneLen is the number of bytes the first character of s takes: an
+// identifier may start with a letter outside ASCII.
+func firstRuneLen(s string) int {
+	_, n := utf8.DecodeRuneInString(s)
+	return n
+}
